@@ -499,8 +499,12 @@ impl Sim {
                         got[k] = has_kind(&cw, k);
                     }
                     if &got != kinds {
+                        let mut props = vec!["C03"];
+                        if c.joined_late && (0..NK).any(|k| kinds[k] && !got[k]) {
+                            props.push("C07");
+                        }
                         errs.push((
-                            vec!["C03"],
+                            props,
                             format!("client{ci} at update tick {u}: {s} has components {} expected {}", kinds_str(&got), kinds_str(kinds)),
                         ));
                     }
@@ -958,6 +962,15 @@ impl Sim {
                         }
                         if r.utick > stamp {
                             self.obs.inc("events_delivered_after_later_updates");
+                        }
+                        // independent of what the client reports: the transport must have handed over the
+                        // update message of the stamped tick in THIS session before the event is observed
+                        let delivered = self.clients[i].last_upd_tick_delivered;
+                        if stamp != 0 && delivered < stamp {
+                            self.viol(
+                                &["C04"],
+                                format!("client{i} observed {} seq {} (sent after update tick {stamp}) although the last update message delivered to it in this session has tick {delivered}", r.kind, r.seq),
+                            );
                         }
                     }
                     None => self.viol(&["C04", "C05"], format!("client{i} observed {} seq {} which was never put on the wire for it", r.kind, r.seq)),
